@@ -10,6 +10,9 @@ import RsslVerif.Lemmas.ArithClasses
 import RsslVerif.Gen.PipelineProps
 import RsslVerif.Model.PipelineProps
 import RsslVerif.Lemmas.PipelineProps
+import RsslVerif.Gen.UsageLoop
+import RsslVerif.Model.UsageDfs
+import RsslVerif.Lemmas.Usage
 /-!
 # C08 — compilation is total
 
@@ -666,5 +669,122 @@ example : applyMacros (fun _ _ => none) bodyRescanFlag argExpandFlag 10
     .ok [⟨.lit 0, 4, 15⟩, ⟨.blank, 15, 16⟩, ⟨.id definedName, 200, 207⟩, ⟨.lparen, 207, 208⟩, ⟨.id 4, 20, 23⟩, ⟨.rparen, 209, 210⟩] := by rfl
 example : tiled [⟨.id definedName, 4, 11⟩, ⟨.blank, 11, 12⟩, ⟨.id 2, 12, 15⟩] = true := by decide
 end
+
+
+/-! ## the closure of the usage relation (`ir/src/usage_analysis.rs`, runs for every exported module) -/
+
+section usage
+open RsslVerif.Gen.UsageLoop RsslVerif.Model.Usage RsslVerif.Spec.Usage RsslVerif.Lemmas.Usage RsslVerif.Model.UsageDfs
+
+/-- Tie to the source: `GlobalUsageAnalysis::recurse` is the sweep the model `Model.Usage.recurseFuel` mirrors
+    (snapshot of the keys; `loop { modified = false; for key in &keys {..}; if !modified { break } }` with a single
+    `break` and no `continue` / `return`; a key's new set starts from its current one and adds the sets of its members;
+    `modified` is raised exactly when the set grew), it calls no function of usage_analysis.rs, the impl block consists
+    of the four reviewed functions and none of them calls itself: the closure is computed by ITERATION, the call graph
+    is never walked recursively.  A depth-first helper (seeded C08-6) falsifies five of the nine facts. -/
+theorem usage_loop_as_modelled :
+    usageLoopShape = ⟨true, true, true, true, true, true, true, true, true⟩ ∧ usageClosureIsIterative = true ∧
+    implCalls = [("calculate", ["calculate_local", "recurse"]),
+                 ("calculate_local", ["calculate_for_function", "gather_usage_for_init_opt"]),
+                 ("recurse", []), ("get_usage_for_function", [])] := by decide
+
+/-- **The usage closure terminates on every call graph, cycles included.**  For every table in which each mentioned
+    symbol has an entry (`calculate_local` makes one per function, global and constant buffer) and every iteration
+    order of the keys: (1) the loop as the source writes it (`usageClosureIsIterative`, re-extracted on every run — the
+    proof starts from it, so a recursive rewrite falsifies the theorem) returns a table within `n² + 1` sweeps, `n` =
+    number of symbols, and with every larger fuel; it never reaches the `unwrap()` of a missing entry, whatever the
+    fuel; (2) the termination measure: the sum of the set sizes is at most `n²`, never decreases in a sweep and
+    strictly increases in a sweep that reports `modified`. -/
+theorem usage_closure_terminates :
+    usageClosureIsIterative = true ∧
+    ∀ {t₀ : Table}, WF t₀ → ∀ {keys : List Sym}, (∀ k ∈ keys, k ∈ keysOf t₀) →
+      (∃ t', recurse keys t₀ = .ok (some t')) ∧
+      (∀ fuel, t₀.length * t₀.length < fuel → ∃ t', recurseFuel fuel keys t₀ = .ok (some t')) ∧
+      (∀ fuel, ∃ r, recurseFuel fuel keys t₀ = .ok r) ∧
+      (∀ t, Inv t₀ t → total t ≤ t₀.length * t₀.length ∧ total t ≤ total (sweepP t false keys).1 ∧
+        ((sweepP t false keys).2 = true → total t < total (sweepP t false keys).1)) := by
+  refine ⟨by decide, ?_⟩
+  intro t₀ hwf keys hk
+  have hfuel : ∀ fuel, t₀.length * t₀.length < fuel → ∃ t', recurseFuel fuel keys t₀ = .ok (some t') := by
+    intro fuel hf
+    obtain ⟨t', h⟩ := recP_some (keys := keys) fuel t₀ (Inv.init hwf) (by omega)
+    exact ⟨t', by rw [recurseFuel_eq hk _ _ (Inv.init hwf), h]⟩
+  refine ⟨?_, hfuel, ?_, ?_⟩
+  · exact hfuel (fuelBound t₀) (by unfold fuelBound; omega)
+  · intro fuel
+    exact ⟨_, recurseFuel_eq hk fuel t₀ (Inv.init hwf)⟩
+  · intro t hinv
+    exact ⟨total_le_of_inv hinv, (total_sweep t false).1, fun h => (total_sweep t false).2 h rfl⟩
+
+/-- **What it returns is reachability**: after the loop, `g` is in `f`'s set iff `g` is mentioned by some symbol
+    reachable from `f` (reflexive-transitive closure of "mentions" in the table of `calculate_local`) — the least
+    fixpoint over the call graph, for every key order; keys unchanged, sets duplicate free (so
+    `get_usage_for_function(..).unwrap()` of the exporters finds its entry). -/
+theorem usage_closure_is_reachability {t₀ t' : Table} (hwf : WF t₀) {keys : List Sym}
+    (hk : ∀ k, k ∈ keys ↔ k ∈ keysOf t₀) (h : recurse keys t₀ = .ok (some t')) :
+    (∀ f g : Sym, g ∈ val t' f ↔ ∃ h, Reach (Mentions t₀) f h ∧ g ∈ val t₀ h) ∧
+    keysOf t' = keysOf t₀ ∧ ∀ k, (val t' k).Nodup := by
+  unfold recurse at h
+  rw [recurseFuel_eq (fun k hk' => (hk k).1 hk') _ _ (Inv.init hwf)] at h
+  have h' : recP (fuelBound t₀) keys t₀ = some t' := by
+    injection h
+  obtain ⟨hinv, hs⟩ := recP_spec _ _ _ (Inv.init hwf) h'
+  exact ⟨fun f g => closure_of_stable hinv (fun k hk' => hs k ((hk k).2 hk')) f g, hinv.keys, hinv.nodup⟩
+
+private theorem resolve_step_err {d : Table} {n : Nat} {s o : Sym} (hs : d.lookup s = some [o]) (hne : o ≠ s)
+    (h : resolve d n [] o = .error .stackExhausted) : resolve d (n + 1) [] s = .error .stackExhausted := by
+  simp [resolve, keysOf, hs, resolveAll, hne, h]
+
+private theorem dfs_two (n : Nat) :
+    resolve twoCycle n [] (.fn 0) = .error .stackExhausted ∧ resolve twoCycle n [] (.fn 1) = .error .stackExhausted := by
+  induction n with
+  | zero => exact ⟨rfl, rfl⟩
+  | succ n ih => exact ⟨resolve_step_err rfl (by decide) ih.2, resolve_step_err rfl (by decide) ih.1⟩
+
+private theorem dfs_three (n : Nat) :
+    resolve threeCycle n [] (.fn 0) = .error .stackExhausted ∧ resolve threeCycle n [] (.glob 0) = .error .stackExhausted ∧
+    resolve threeCycle n [] (.fn 1) = .error .stackExhausted := by
+  induction n with
+  | zero => exact ⟨rfl, rfl, rfl⟩
+  | succ n ih =>
+    exact ⟨resolve_step_err rfl (by decide) ih.2.1, resolve_step_err rfl (by decide) ih.2.2, resolve_step_err rfl (by decide) ih.1⟩
+
+/-- negation witness (why the loop shape matters): the memoised depth-first walk without an in-progress marker
+    (`Model.UsageDfs`, the seeded rewrite C08-6) exhausts EVERY call depth on `is_even` / `is_odd` and on a cycle
+    function → global initialiser → function → function — the real process dies with a stack overflow — although it
+    handles a directly self-calling function; the loop of the current source closes the same three tables. -/
+theorem usage_memo_dfs_overflows_on_cycle :
+    (∀ depth keys, keys ≠ [] → (∀ k ∈ keys, k ∈ keysOf twoCycle) → recurseDfs twoCycle depth keys [] = .error .stackExhausted) ∧
+    (∀ depth, recurseDfs threeCycle depth (keysOf threeCycle) [] = .error .stackExhausted) ∧
+    recurseDfs selfLoop 3 (keysOf selfLoop) [] = .ok [(.fn 1, []), (.fn 0, [.fn 0, .fn 1])] ∧
+    recurse (keysOf twoCycle) twoCycle = .ok (some [(.fn 0, [.fn 1, .fn 0]), (.fn 1, [.fn 0, .fn 1])]) ∧
+    recurse (keysOf threeCycle) threeCycle =
+      .ok (some [(.fn 0, [.glob 0, .fn 1, .fn 0]), (.glob 0, [.fn 1, .fn 0, .glob 0]), (.fn 1, [.fn 0, .glob 0, .fn 1])]) := by
+  refine ⟨?_, ?_, by rfl, by rfl, by rfl⟩
+  · intro depth keys hne hk
+    cases keys with
+    | nil => exact absurd rfl hne
+    | cons k ks =>
+      have hk0 : k = .fn 0 ∨ k = .fn 1 := by
+        have := hk k (List.mem_cons_self ..)
+        simpa [twoCycle, keysOf] using this
+      rcases hk0 with rfl | rfl
+      · simp [recurseDfs, (dfs_two depth).1]
+      · simp [recurseDfs, (dfs_two depth).2]
+  · intro depth
+    have h : recurseDfs threeCycle depth (keysOf threeCycle) [] =
+      (match resolve threeCycle depth [] (.fn 0) with
+        | .error e => .error e
+        | .ok r' => recurseDfs threeCycle depth [.glob 0, .fn 1] r') := rfl
+    rw [h, (dfs_three depth).1]
+
+/-- non-vacuity: cyclic tables are well formed (the hypothesis of the two theorems above holds for them) -/
+example : WF twoCycle := wf_of_check (by decide)
+example : WF threeCycle := wf_of_check (by decide)
+/-- a ring of five with a chord and a self loop: every set ends with all five symbols, well inside the bound of 26 sweeps -/
+example : (((recurse [.fn 0, .fn 1, .fn 2, .fn 3, .fn 4]
+    [(.fn 0, [.fn 1]), (.fn 1, [.fn 2, .fn 1]), (.fn 2, [.fn 3]), (.fn 3, [.fn 4, .fn 1]), (.fn 4, [.fn 0])]).toOption.bind id).map
+    (fun t => t.map (fun e => e.2.length))) = some [5, 5, 5, 5, 5] := by decide
+end usage
 
 end RsslVerif.Thm.C08
